@@ -2,7 +2,8 @@
      checker|<hex metafile>|<path: hex,hex,... or ->|<fs table>   -> root|entry;entry;...|total   or  "none"
      findroot|<hex name>|<path>|<fs table>                        -> root or "none"
    fs table: items separated by ';' ("-" = empty); item = <path>:<f or d>:<entries: hex,hex,... or ->
-   entry = <path>:<length>:<hex pieces root or ~>;   a path is hex components separated by ',' ("-" = no component) *)
+   entry = <path>:<length>:<hex pieces root or ~>:<p or ->   (last field: "p" = a padding entry, fi_padding, i.e. the
+   recorded "attr" contains the character p);   a path is hex components separated by ',' ("-" = no component) *)
 open Extracted
 open Wire
 let table_of_field (s : string) =
@@ -12,7 +13,8 @@ let table_of_field (s : string) =
     | _ -> failwith "bad fs item") (String.split_on_char ';' s)
 let entry fi =
   field_of_bytes_list (fi_path fi) ^ ":" ^ string_of_z (fi_length fi) ^ ":" ^
-  (match fi_root fi with Some r -> hex_of_chars r | None -> "~")
+  (match fi_root fi with Some r -> hex_of_chars r | None -> "~") ^ ":" ^
+  (if fi_padding fi then "p" else "-")
 let dispatch fields = match fields with
   | ["selftest"] -> if selftest () then "SELFTEST OK" else "SELFTEST FAIL"
   | ["checker"; file; path; tbl] ->
